@@ -23,6 +23,7 @@ PROPS = {
     "C15": ("p_preproc", "check_c15"),
     "C16": ("p_workspace", "check_c16"),
     "C17": ("p_analysis", "check_c17"),
+    "C20": ("p_vocab", "check_c20"),
 }
 
 
